@@ -5,6 +5,7 @@ open XmppVerif.Model.C17 XmppVerif.Spec.C17 XmppVerif.Util XmppVerif.Drv
 
 def parseOp : List String → Option Op
   | ["push", h] => (decStr h).map .push
+  | ["pushsame", h] => (decStr h).map .push     -- the caller re-uses one object: for the queue, a push like any other
   | ["pop"] => some .pop
   | ["popn", k] => (parseInt k).map .popn
   | ["peek"] => some .peek
@@ -52,8 +53,22 @@ structure St where
 def init (fields : List String) : St :=
   ⟨fields == ["nil"], ⟨[], 0⟩, ⟨[], []⟩, ⟨[], []⟩⟩
 
+/-- `Push(Peek())`: pushes a copy of the head's stanza; nothing on an empty queue -/
+def resolve (st : St) (fields : List String) : Option Op :=
+  match fields with
+  | ["pushpeek"] =>
+    (match st.q.q.head? with
+     | some e => some (.push e.stz)
+     | none => some .empty)     -- nothing happens: judged like a read-only op whose result the harness reports as ""
+  | _ => parseOp fields
+
 def step (st : St) (fields : List String) (impl : String) : St × Reply :=
-  match parseOp fields with
+  if fields == ["pushpeek"] && st.q.q.isEmpty && !st.nilq then
+    -- no-op on an empty queue
+    let mo : Obs := ⟨.ents [], st.q.q⟩
+    (st, .det (showObs mo) impl true (impl == showObs mo))
+  else
+  match resolve st fields with
   | none => (st, .bad)
   | some op =>
     if st.nilq then
